@@ -27,7 +27,7 @@ m = {
     'version': 1,
     'setup_cmd': './setup.sh',
     'hooks': {'guard': 'SPECTRA_VERIF', 'enable': 'none needed: every check reads the unmodified sources of /repo (no hooks were added)',
-              'baseline_off_cmd': 'cd /repo && cmake -G Ninja -B _build -S . >/dev/null && cmake --build _build -j16 >/dev/null && ctest --test-dir _build -j8 --timeout 900',
+              'baseline_off_cmd': 'cd /repo && cmake -G Ninja -B _build -S . -DBUILD_TESTS=ON -DCMAKE_BUILD_TYPE=RelWithDebInfo >/dev/null && cmake --build _build -j16 >/dev/null && ctest --test-dir _build -j8 --timeout 900',
               'source_commits': [], 'add_only': True},
     'engines': [
         {'name': 'spectra-facts', 'path': 'tool/spectra_facts.cc', 'serves_properties': [c['property_id'] for c in checks],
